@@ -23,7 +23,7 @@ from prompt_toolkit.document import Document
 
 ID = "C02"
 DRIVER = "drv_c02"
-PROPS = ["Ptk.Props.C02"]
+PROPS = ["Ptk.Props.C02", "Ptk.Props.C02Extra"]
 TECHNIQUE = "Lean 4 proof over hand-written executable model + differential correspondence with the real code"
 LEVEL_TEXT = ("Lean 4 theorems over an executable model of prompt_toolkit.document.Document: index<->(row,col) "
               "translations are mutually inverse and agree with split('\\n'); before/after/current-line/row/col "
@@ -53,9 +53,19 @@ ASSUMPTIONS = ["CPython str slicing/split semantics; bisect.bisect_right meets i
                "regex \\s and str.isspace tables regenerated from the interpreter",
                "re.IGNORECASE = ASCII case folding on the generated alphabet (no non-ASCII cased letters)",
                "selection-dependent queries run in Emacs mode (vi_mode() False)"]
-PARTIAL_SCOPE = ["selection_ranges / selection_range_at_line / cut_selection / paste_clipboard_data not modelled (C09)",
+PARTIAL_SCOPE = ["selection_range(s) / selection_range_at_line / cut_selection / paste_clipboard_data not modelled (C09)",
                  "custom `pattern=` argument of find_start_of_previous_word / get_word_before_cursor not modelled",
-                 "negative cursor positions and negative rows of translate_row_col_to_index are outside the property"]
+                 "negative cursor positions, negative rows of translate_row_col_to_index and count = 0 of the word "
+                 "motions are outside the property (modelled and correspondence-checked, no theorem)",
+                 "find / find_backwards with count > 1: soundness and bounds proved, 'exactly the count-th "
+                 "non-overlapping match' is correspondence-checked only (count = 1: nearest + completeness proved)",
+                 "start/end_of_paragraph: bounds and direction proved, the exact target is correspondence-checked only",
+                 "find_boundaries_of_current_word with whitespace flags: on-line/direction proved, 'one word' only "
+                 "without the flags; get_word_before/under_cursor, leading_whitespace_in_current_line, "
+                 "empty_line_count_at_the_end: correspondence + oracle only",
+                 "find_previous_word_ending at cursor == len(text): known finding (off by one), theorem "
+                 "prevWordEnding_lands_partial excludes exactly that region, prevWordEnding_defect proves the witness",
+                 "bisect.bisect_right is modelled by its specification on sorted lists (lineStarts_sorted proved)"]
 
 ALPHA = ["a", ".", " ", "\n", "(", ")"]
 RAND_ALPHA = list("abcXY_09") + list(".,;-+") + [" ", " ", " ", "\n", "\n", "\t"] + list("()[]{}<>") + \
@@ -754,8 +764,7 @@ ALPHA3 = ["a", " ", "\n", "("]
 NEEDLES_2 = ["", "B", "_B", "\t", "b", "世", "]"]
 
 
-def exhaustive(alpha, lens, needles, pairs):
-    counts_w = (-2, -1, 0, 1, 2, 3)
+def exhaustive(alpha, lens, needles, pairs, counts_w=(-2, -1, 0, 1, 2, 3)):
     for n in lens:
         for tup in itertools.product(alpha, repeat=n):
             text = "".join(tup)
@@ -770,8 +779,8 @@ def cases(tier, rng):
     else:
         yield from exhaustive(ALPHA, range(0, 6), NEEDLES_X, (("(", ")"),))
         yield from exhaustive(ALPHA2, range(1, 6), NEEDLES_2, (("[", "]"),))
-        yield from exhaustive(ALPHA3, range(6, 7), ["", "a", "a ", "\n"], (("(", ")"),))
-    nrand = 1500 if tier == "quick" else 40000
+        yield from exhaustive(ALPHA3, range(6, 7), ["a", "a "], (("(", ")"),), counts_w=(-1, 1, 2))
+    nrand = 1500 if tier == "quick" else 30000
     for _ in range(nrand):
         n = rng.choice([0, 1, 2, 3, 5, 8, 13, 21, 34, 60])
         text = rand_text(rng, n)
